@@ -109,6 +109,19 @@ CHECKS = {
             "the index does not change between the pages of one query (C17 covers concurrent writers)",
         ],
     },
+    "C17": {
+        "trace_module": "Trace_FilterSync",
+        "mc": [],
+        "drivers": [{"name": "concurrent", "driver": "concurrent", "args": [], "trace_module": "Trace_FilterSync",
+                     "n": {"quick": 10, "thorough": 60}, "procs": {"quick": 6, "thorough": 14},
+                     "tier_args": {"quick": ["pairs=3", "maxk=4"], "thorough": ["pairs=6", "maxk=12"]}, "timeout": 3000}],
+        "assumptions": FS_ASSUMPTIONS + [
+            "the operations are set_scripts (RPC), a BlockFilters batch, the arrival of a matched block, a last-state proof that switches to a heavier fork, and get_cells_capacity as the reader; each runs on its own OS thread against the same store and Peers object, as the handlers of the real node do",
+            "the first operation is suspended by the storage hook right before its k-th write (the reader: at its read points after the snapshot is taken), the second is started then; if it does not finish within 300 ms it is taken to be blocked and the first is released",
+            "an experiment whose three runs (serial A;B, serial B;A, concurrent) do not start from the same projected state (the client iterates hash maps in random order) is discarded",
+            "compared: script set and numbers, filter progress, matched-block records and map, index contents, stored tip and last-N, final check points, the peers' proved headers",
+        ],
+    },
     "C18": {
         "trace_module": "Trace_TxPool",
         "mc": [{"module": "MC_TxPool", "cfg": "MC_TxPool.cfg", "timeout": {"quick": 300, "thorough": 600}, "workers": 4}],
